@@ -456,7 +456,7 @@ func C02(c *vh.Ctx) {
 		c.Count("a_patterns", int64(len(pats)))
 		c.Count("a_messages", int64(len(msgs)))
 	}
-	c.Rule("(a) every (pattern, message) over the two-letter alphabet (keys {a,b}, atoms {\"a\",\"b\",1}, variables ?x ?y ? ??o, property variables ?x ?) up to the node bounds, messages without duplicate scalar array members, patterns without duplicate scalar array members: the reference backtracking enumerator's embeddings must all be returned, and for plain patterns the result set must equal them; cases where a repeated variable would take a structured value are skipped (side condition). (b) planting: every pattern up to a larger bound x every assignment of values to its variables (side conditions enforced) x every message = instantiated pattern plus up to k insertions (extra keys in any map; extra elements in any array incl. near-copies of structured siblings, front and back) x pre-binding none/each single variable: the planted assignment must be returned. (d) in context: every pair with a pattern of up to 3 nodes once more as one property of a larger pattern whose other property yields two candidate binding sets (an array variable over two elements evaluated before it, a property variable over two keys evaluated after it). (c) wide arrays: 2-5 structured pattern elements with distinct variables (with/without an array variable) against as many or one more ambiguous message elements: all injections must be returned. Odometer, duplicate-free; non-trivial = at least one embedding exists.")
+	c.Rule("(a) every (pattern, message) over the two-letter alphabet (keys {a,b}, atoms {\"a\",\"b\",1}, variables ?x ?y ? ??o, property variables ?x ?) up to the node bounds, messages without duplicate scalar array members, patterns without duplicate scalar array members: the reference backtracking enumerator's embeddings must all be returned, and for plain patterns the result set must equal them; cases where a repeated variable would take a structured value are skipped (side condition). (b) planting: every pattern up to a larger bound x every assignment of values to its variables (side conditions enforced) x every message = instantiated pattern plus up to k insertions (extra keys in any map; extra elements in any array incl. near-copies of structured siblings, front and back) x pre-binding none/each single variable: the planted assignment must be returned. (d) in context: every pair with a pattern of up to 3 nodes once more as one property of a larger pattern whose other property yields two candidate binding sets (an array variable over two elements evaluated before it, a property variable over two keys evaluated after it). (e) look-alikes: arrays and maps holding scalars of different JSON types that print alike (1 / \"1\", true / \"true\", null / \"null\", 0 / false / \"\"). (c) wide arrays: 2-5 structured pattern elements with distinct variables (with/without an array variable) against as many or one more ambiguous message elements: all injections must be returned. Odometer, duplicate-free; non-trivial = at least one embedding exists.")
 	for i, p := range pats {
 		if !c.Mine(uint64(i)) {
 			continue
@@ -491,6 +491,13 @@ func C02(c *vh.Ctx) {
 			completeOne(c, c02Case{P: M{"a0": []interface{}{"?c"}, "k": p}, M: M{"a0": []interface{}{1.0, 2.0}, "k": m, "other": "x"}, B: M{}}, false)
 			completeOne(c, c02Case{P: M{"k": p, "z": M{"?c": "v"}}, M: M{"k": m, "z": M{"p": "v", "q": "v", "r": "w"}}, B: M{}}, false)
 			c.Count("d_evaluations", 2)
+		}
+	}
+	// (e) scalars of different types that print alike, as array members and values
+	for i, cs := range lookAlikeCases() {
+		if c.Mine(uint64(i)) {
+			completeOne(c, c02Case{P: cs.P, M: cs.M, B: cs.B}, false)
+			c.Count("e_evaluations", 1)
 		}
 	}
 	// (c) wide arrays: every injection of 2-5 structured pattern elements into the message elements must be returned
